@@ -395,6 +395,11 @@ fn main() {
     match args.get(1).map(|s| s.as_str()) {
         Some("trace") => cmd_trace(&args[2]),
         Some("run") => cmd_run(&args[2]),
+        Some("nderiv") => {
+            for (s, n) in reg::nderivs() {
+                println!("{}\t{}", s, n);
+            }
+        }
         Some("shapes") => {
             for s in reg::SHAPES {
                 println!("{}\t{}\t{}", s, reg::ngroups(s), reg::paths(s).join(","));
